@@ -5,6 +5,16 @@ PROP = {
     'streams': [{'name': 'route', 'harness': 'umh_route', 'driver': 'route',
                  'timeout': {'quick': 600, 'thorough': 3000}}],
     'assumptions': [
+        'C02_stable_reachable / C02_migrating_reachable / C02_no_third_node_reachable: every operation list whose prefixes '
+        'satisfy C01\'s size bound PlanBound (<= 16384 masters per cluster), every cluster found by name, every migration '
+        'limit; SyncedWith = every proxy address of the stored cluster is reachable and has Installed a meta WireFaithful to '
+        'encodeFor of what proxyView (get_proxy_by_address) serves for it. ViewOk is derived: PartitionView from C01 '
+        '(cinv_run, limitMigration_spec, partitionView_viewP), one peer entry per proxy and proxy-address uniqueness from '
+        'C12_accounting (ResInv) + proxy_peers_nodup, compacted pending ranges below 16384 from SlotInv + PartitionView. '
+        'Explicit hypotheses that are not broker invariants: name != "" (ClusterName::try_from("") succeeds at the store '
+        'API; validName name only ties v to the query), NodesDistinct cl (the two node addresses of every proxy of the '
+        'cluster differ: F02a), and for a slot under migration srcProxy != dstProxy (no store invariant says that a '
+        'migration connects halves on different proxies)',
         'ViewOk v: the whole-cluster view is a C01 PartitionView with a non-empty cluster name, the master nodes '
         'placed on one proxy have pairwise distinct addresses (add_proxy does not check the two node addresses of a '
         'proxy), every proxy view lists each peer proxy once (C01 proxy_peers_nodup), and pending range lists are in '
@@ -43,9 +53,9 @@ PROP = {
         'max_migration_time expiry can commit the destination while the source still serves',
         'check_hosts of set_meta is modelled (NOT_MY_META) but its exclusion is C05; UMFORWARD / active redirection '
         'on is modelled in routeWithMigration but no theorem is stated for it',
-        'connection between ViewOk and Reachable broker states (BrokerInv => ViewOk of clusterView) is left to the lead '
-        '(C01 provides PartitionView, proxy_peers_nodup, NormalRanges; distinct node addresses per proxy and '
-        'srcProxy != dstProxy are not broker invariants)',
+        'srcProxy != dstProxy is not derived: PosInv/TwinInv/ResInv do not exclude a migration between the two halves of '
+        'one chunk whose masters sit on one proxy (role First/Second); it follows whenever srcChunk != dstChunk or the '
+        'chunk is in role Normal, but no invariant states that the planner only produces such migrations',
     ],
     'trusted': [
         'harness in-memory network (NetClientFactory: delivers UMCTL commands to the addressed real ForwardHandler, '
@@ -68,7 +78,9 @@ CHECK = {
             'group order (from C17); an accepted SETCLUSTER installs it whatever was served before. For every view '
             'satisfying ViewOk and every cluster in which each proxy serves its own current view: a slot no pending '
             'range covers has exactly one covering master range and every start proxy reaches that master\'s node at '
-            'that master\'s proxy within 1 MOVED (C02_stable); a slot under migration is covered by exactly the '
+            'that master\'s proxy within 1 MOVED (C02_stable; C02_stable_reachable / C02_migrating_reachable / '
+            'C02_no_third_node_reachable restate all three over every bounded run of the broker model, every cluster and '
+            'every migration limit, with the proxies synced to what proxyView serves); a slot under migration is covered by exactly the '
             'migrating-out range on the source master and its importing twin on the destination master, both proxies '
             'hold a task for it, and for each of the 8 handshake phase pairs every start proxy (source, destination, '
             'bystander) ends within 2 MOVED at the source node before the destination has switched and at the '
